@@ -14,7 +14,9 @@ ID = 'C15'
 RULE = ('Stereo double bond family: ligand position forms (ligand before anchor, ligand in a branch, with / without further '
         'substituent) on both sides x intended relation (cis / trans) x slash marks (all mark pairs that pysmiles reads as the '
         'intended relation on the uncut text) x cut placement (none, at the double bond, at a single bond elsewhere on either '
-        'side, both, at the ligand bond) x every order of the fragments in the base graph x descriptor kind. Stereocentre family: '
+        'side, both, at the ligand bond) x every order of the fragments in the base graph x descriptor kind; every cut case again '
+        'with a disconnected spectator copy of each fragment listed first / last (a fragment name that reappears in the base graph); '
+        'ligand forms with an explicitly written hydrogen as the marked substituent. Stereocentre family: '
         'labelled centre (x=R|S, positional and keyword) x every set of cuts around it x fragment orders. Oracle: the recorded '
         'relation between F and Cl equals the intended one; every stored 4-path exists with a double bond in the middle; the '
         'chirality label sits on the atom with the right neighbourhood and nowhere else. Non-trivial = at least one cut.')
@@ -180,6 +182,16 @@ def fragments(lf, rf, tl, tr, cut, kind):
             close = b.index(')')
             return [L + '=' + e1, e2 + '=' + a + d1 + b[close:], d2 + b[:close]], [(0, 1, 1), (1, 2, 1)]
         return [L + '=' + e1, e2 + '=' + a + d1, d2 + b], [(0, 1, 1), (1, 2, 1)]
+    if cut == 'db-shared-right':
+        # the double bond is not cut by a bond: the left fragment ends with a bare copy of the right double-bond
+        # atom, both copies are marked with the shared-atom operator
+        if kind != '$':
+            return None
+        return [L + '=C[!a]', 'C[!a]' + Rt[1:]], [(0, 1, 1)]
+    if cut == 'db-shared-left':
+        if kind != '$':
+            return None
+        return [L + '[!a]', 'C[!a]=' + Rt], [(0, 1, 1)]
     if cut == 'ligand':
         # the F ligand is its own fragment; the mark stays next to the anchor atom of the double bond
         if lf == 'first':
@@ -190,7 +202,7 @@ def fragments(lf, rf, tl, tr, cut, kind):
     return None
 
 
-CUTS = ('none', 'db', 'left-elsewhere', 'right-elsewhere', 'db+right', 'ligand')
+CUTS = ('none', 'db', 'left-elsewhere', 'right-elsewhere', 'db+right', 'ligand', 'db-shared-right', 'db-shared-left')
 
 CENTRES = {
     # text with '|' at cuttable single bonds, the labelled atom is the one in brackets
@@ -271,7 +283,8 @@ def run_task(task, R):
                         inp = {'family': 'db', 'lf': lf, 'rf': rf, 'rel': rel, 'tl': tl, 'tr': tr, 'cut': cut, 'kind': kind,
                                'order': order, 'deforder': deforder}
                         R.record(inp, evaluate(inp))
-                    if n == 1:
+                    if n == 1 or cut.startswith('db-shared'):
+                        # (a spectator copy of a fragment holding one half of a shared double bond is not a valid fragment)
                         continue
                     # a fragment name that occurs a second time in the base graph: a disconnected spectator copy of
                     # one of the fragments, listed first or last
@@ -518,6 +531,14 @@ def classify(viol, finding):
         return False
     if 'order_not_identity' in sig and tuple(inp['order']) == tuple(range(len(inp['order']))):
         return False
+    if sig.get('shared_numbering'):
+        # the merged atom is numbered after the atoms that belong to the first listed fragment only; the flip is
+        # predicted exactly by whether the left ligand was written before or after its double-bond atom
+        after = inp['lf'] not in ('first', 'ethyl-first', 'H-first')
+        written = tuple(inp['order']) == (0, 1)
+        if inp['cut'] == 'db-shared-left':
+            return after == written
+        return after and not written
     return True
 
 
